@@ -34,6 +34,9 @@ def decodeOrd (j : Json) : Except String (List (Str × Str)) :=
 def decodeOp (j : Json) : Except String Op := do
   match ← J.getStr j "op" with
   | "save" => pure (.save (← J.getHex j "key") (← decodeCond (← J.getObj j "cond")))
+  | "saveStored" => do
+      let c ← decodeCond (← J.getObj j "cond")
+      pure (.saveStored (← J.getHex j "key") (← J.getHex j "name") c.spec c.status c.labels)
   | "delete" => pure (.delete (← J.getHex j "key") (← J.getHex j "name"))
   | "deleteUpstream" => pure (.deleteUpstream (← J.getHex j "key") (← decodeOrd j))
   | "flush" => pure (.flush (← decodeOrd j))
@@ -187,7 +190,7 @@ def doLoad (a : Json) : Except String Json := do
 def doLocks (a : Json) : Except String Json := do
   let wt ← J.getBool a "wt"
   let c : Cond := ⟨[], [], 0, 0, 0, 0⟩
-  pure <| J.obj [("save", J.bool (mayRunInside genLocks wt (.save [] c))), ("delete", J.bool (mayRunInside genLocks wt (.delete [] []))),
+  pure <| J.obj [("save", J.bool (mayRunInside genLocks wt (.save [] c))), ("saveStored", J.bool (mayRunInside genLocks wt (.saveStored [] [] 0 0 0))), ("delete", J.bool (mayRunInside genLocks wt (.delete [] []))),
     ("deleteUpstream", J.bool (mayRunInside genLocks wt (.deleteUpstream [] []))), ("flush", J.bool (mayRunInside genLocks wt (.flush []))),
     ("stop", J.bool (mayRunInside genLocks wt (.stop []))), ("load", J.bool (mayRunInside genLocks wt .load))]
 
